@@ -890,8 +890,265 @@ namespace fam_lockhash {
 #define LOCKHASH_CUCKOO_VARIANTS
 #endif // LOCKHASH_NO_CUCKOO
 
-#ifndef LOCKHASH_STRIPED_VARIANTS
-#define LOCKHASH_STRIPED_VARIANTS
+// =============================================================================================
+// Striped: adapter headers MUST precede striped_set.h / striped_map.h
+// =============================================================================================
+#if !defined(LOCKHASH_NO_STRIPED_STD) || !defined(LOCKHASH_NO_STRIPED_BOOST) || !defined(LOCKHASH_NO_STRIPED_INTRUSIVE)
+#   define LOCKHASH_HAS_STRIPED
 #endif
+
+#ifndef LOCKHASH_NO_STRIPED_STD
+#include <cds/container/striped_set/std_list.h>
+#include <cds/container/striped_set/std_vector.h>
+#include <cds/container/striped_set/std_set.h>
+#include <cds/container/striped_set/std_hash_set.h>
+#include <cds/container/striped_map/std_list.h>
+#include <cds/container/striped_map/std_map.h>
+#include <cds/container/striped_map/std_hash_map.h>
+#endif
+#ifndef LOCKHASH_NO_STRIPED_BOOST
+#include <cds/container/striped_set/boost_slist.h>
+#include <cds/container/striped_set/boost_list.h>
+#include <cds/container/striped_set/boost_flat_set.h>
+#include <cds/container/striped_set/boost_stable_vector.h>
+#include <cds/container/striped_set/boost_vector.h>
+#include <cds/container/striped_set/boost_set.h>
+#include <cds/container/striped_set/boost_unordered_set.h>
+#include <cds/container/striped_map/boost_slist.h>
+#include <cds/container/striped_map/boost_list.h>
+#include <cds/container/striped_map/boost_flat_map.h>
+#include <cds/container/striped_map/boost_map.h>
+#include <cds/container/striped_map/boost_unordered_map.h>
+#endif
+#ifndef LOCKHASH_NO_STRIPED_INTRUSIVE
+#include <cds/intrusive/striped_set/boost_list.h>
+#include <cds/intrusive/striped_set/boost_slist.h>
+#include <cds/intrusive/striped_set/boost_set.h>
+#include <cds/intrusive/striped_set/boost_avl_set.h>
+#include <cds/intrusive/striped_set/boost_sg_set.h>
+#include <cds/intrusive/striped_set/boost_splay_set.h>
+#include <cds/intrusive/striped_set/boost_unordered_set.h>
+#endif
+
+#ifdef LOCKHASH_HAS_STRIPED
+#include <cds/intrusive/striped_set.h>
+#include <cds/container/striped_set.h>
+#include <cds/container/striped_map.h>
+
+namespace fam_lockhash {
+    namespace cc = cds::container;
+    namespace ci = cds::intrusive;
+    namespace co = cds::opt;
+    namespace ss = cds::intrusive::striped_set;
+
+    // Probe over intrusive::StripedSet (base of every flavour). Invariants at quiescence: an element of bucket b hashes
+    // to b; the item counter equals the number of stored elements.
+    template <typename Set, typename KeyOf>
+    struct StripedProbe : Set {
+        template <typename... A>
+        explicit StripedProbe( A&&... a ) : Set( std::forward<A>( a )... ) {}
+
+        template <typename F>
+        void walk( F f )
+        {
+            size_t n = this->bucket_count();
+            for ( size_t b = 0; b < n; ++b ) {
+                auto& bucket = this->m_Buckets[b];
+                for ( auto it = bucket.begin(); it != bucket.end(); ++it )
+                    f( b, *it );
+            }
+        }
+        void walk_keys( std::vector<int>& keys )
+        {
+            KeyOf ko;
+            walk( [&]( size_t, auto const& v ) { keys.push_back( ko( v )); } );
+        }
+        void check()
+        {
+            KeyOf ko;
+            size_t mask = this->bucket_count() - 1, total = 0;
+            walk( [&]( size_t b, auto const& v ) {
+                ++total;
+                int k = ko( v );
+                size_t h = params().h[0].eval( k );
+                if (( h & mask ) != b )
+                    fail( "Striped: key " + std::to_string( k ) + " sits in bucket " + std::to_string( b ) + " but hashes to bucket " + std::to_string( h & mask ));
+            } );
+            if ( total != this->size())
+                fail( "Striped: " + std::to_string( total ) + " elements are stored in the buckets but size() = " + std::to_string( this->size()));
+        }
+        void final_stats() {}
+    };
+
+    // resizing policies
+    typedef ss::single_bucket_size_threshold<1> RP_T1;
+    typedef ss::single_bucket_size_threshold<2> RP_T2;
+    typedef ss::single_bucket_size_threshold<0> RP_T0;      // run-time threshold
+    typedef ss::rational_load_factor_resizing<1, 16> RP_R16;
+    typedef ss::rational_load_factor_resizing<1, 8> RP_R8;
+    typedef ss::load_factor_resizing<1> RP_LF1;
+    typedef ss::load_factor_resizing<0> RP_LF0;             // run-time load factor
+    typedef ss::rational_load_factor_resizing<0, 1> RP_RAT0; // run-time rational load factor (1 / rt)
+
+    template <typename P> struct policy_traits { static constexpr ContKind kind = CK_STRIPED_LOADFACTOR; template <typename S> static S* make( Params const& p ) { return new S( p.init ); } };
+    template <size_t N> struct policy_traits<ss::single_bucket_size_threshold<N>> { static constexpr ContKind kind = CK_STRIPED_THRESHOLD; template <typename S> static S* make( Params const& p ) { return new S( p.init ); } };
+    template <> struct policy_traits<RP_T0> { static constexpr ContKind kind = CK_STRIPED_THRESHOLD; template <typename S> static S* make( Params const& p ) { return new S( p.init, RP_T0( p.rt_policy )); } };
+    template <> struct policy_traits<RP_LF0> { static constexpr ContKind kind = CK_STRIPED_LOADFACTOR; template <typename S> static S* make( Params const& p ) { RP_LF0 pol( p.rt_policy ); return new S( p.init, pol ); } };
+    template <> struct policy_traits<RP_RAT0> { static constexpr ContKind kind = CK_STRIPED_LOADFACTOR; template <typename S> static S* make( Params const& p ) { return new S( p.init, RP_RAT0( 1, p.rt_policy * 8 )); } };
+
+    typedef ss::striping<> MX_S;
+    typedef ss::refinable<> MX_R;
+    typedef ss::striping<cds::sync::spin> MX_SPIN;
+
+    // hash functor used INSIDE hashed bucket containers (independent of the striping hash)
+    struct InnerHash {
+        size_t operator()( int k ) const { return size_t( unsigned( k )) * 2654435761u; }
+        size_t operator()( Item const& i ) const { return ( *this )( i.key ); }
+    };
+
+    // value set over bucket container B; Opts: comparison / copy-policy options handed to the bucket adapter
+    template <typename B, typename Policy, typename Mutex, typename... Opts>
+    AdapterBase* mk_striped_set( Case const& c )
+    {
+        Params p = params() = decode_params( c, policy_traits<Policy>::kind );
+        typedef cc::StripedSet<B, co::hash<LhHash<0>>, co::mutex_policy<Mutex>, co::resizing_policy<Policy>, Opts...> set_type;
+        typedef StripedProbe<set_type, KeyOfItem> probe;
+        return new ValueSetAdapter<probe>( policy_traits<Policy>::template make<probe>( p ), p );
+    }
+    template <typename B, typename Policy, typename Mutex, typename... Opts>
+    AdapterBase* mk_striped_map( Case const& c )
+    {
+        Params p = params() = decode_params( c, policy_traits<Policy>::kind );
+        typedef cc::StripedMap<B, co::hash<LhHash<0>>, co::mutex_policy<Mutex>, co::resizing_policy<Policy>, Opts...> map_type;
+        typedef StripedProbe<map_type, KeyOfPair> probe;
+        return new MapAdapter<probe>( policy_traits<Policy>::template make<probe>( p ), p );
+    }
+    template <typename Node, typename B, typename Policy, typename Mutex, typename... Opts>
+    AdapterBase* mk_striped_intrusive( Case const& c )
+    {
+        Params p = params() = decode_params( c, policy_traits<Policy>::kind );
+        typedef ci::StripedSet<B, co::hash<LhHash<0>>, co::mutex_policy<Mutex>, co::resizing_policy<Policy>, Opts...> set_type;
+        typedef StripedProbe<set_type, KeyOfItem> probe;
+        return new IntrusiveAdapter<probe, Node>( policy_traits<Policy>::template make<probe>( p ), p );
+    }
+
+    typedef std::pair<int const, MVal> MPair;
+    typedef co::less<HLess> O_LESS;
+    typedef co::compare<HCmp> O_CMP;
+    typedef co::copy_policy<cc::striped_set::copy_item> O_COPY;
+    typedef co::copy_policy<cc::striped_set::swap_item> O_SWAP;
+    typedef co::copy_policy<cc::striped_set::move_item> O_MOVE;
+} // namespace fam_lockhash
+#endif // LOCKHASH_HAS_STRIPED
+
+#define LH_V( NAME, ... ) { NAME, mh::GC_NONE, 0, &fam_lockhash::__VA_ARGS__, false },
+
+#ifndef LOCKHASH_NO_STRIPED_STD
+namespace fam_lockhash {
+    typedef std::list<HItem> B_std_list;
+    typedef std::vector<HItem> B_std_vector;
+    typedef std::set<HItem, HLess> B_std_set;
+    typedef std::unordered_set<HItem, InnerHash, HEq> B_std_uset;
+    typedef std::list<MPair> BM_std_list;
+    typedef std::map<int, MVal> BM_std_map;
+    typedef std::unordered_map<int, MVal, InnerHash> BM_std_umap;
+}
+#define LOCKHASH_STRIPED_STD_VARIANTS \
+    LH_V( "StripedSet_std_list_less_striping_T1", mk_striped_set<fam_lockhash::B_std_list, fam_lockhash::RP_T1, fam_lockhash::MX_S, fam_lockhash::O_LESS> ) \
+    LH_V( "StripedSet_std_list_cmp_refinable_T2_swap", mk_striped_set<fam_lockhash::B_std_list, fam_lockhash::RP_T2, fam_lockhash::MX_R, fam_lockhash::O_CMP, fam_lockhash::O_SWAP> ) \
+    LH_V( "StripedSet_std_vector_cmp_refinable_R16_copy", mk_striped_set<fam_lockhash::B_std_vector, fam_lockhash::RP_R16, fam_lockhash::MX_R, fam_lockhash::O_CMP, fam_lockhash::O_COPY> ) \
+    LH_V( "StripedSet_std_set_striping_T2_swap", mk_striped_set<fam_lockhash::B_std_set, fam_lockhash::RP_T2, fam_lockhash::MX_S, fam_lockhash::O_SWAP> ) \
+    LH_V( "StripedSet_std_unordered_set_refinable_T0", mk_striped_set<fam_lockhash::B_std_uset, fam_lockhash::RP_T0, fam_lockhash::MX_R> ) \
+    LH_V( "StripedMap_std_list_less_striping_T2", mk_striped_map<fam_lockhash::BM_std_list, fam_lockhash::RP_T2, fam_lockhash::MX_S, fam_lockhash::O_LESS> ) \
+    LH_V( "StripedMap_std_map_refinable_T1_copy", mk_striped_map<fam_lockhash::BM_std_map, fam_lockhash::RP_T1, fam_lockhash::MX_R, fam_lockhash::O_COPY> ) \
+    LH_V( "StripedMap_std_unordered_map_spin_R16_swap", mk_striped_map<fam_lockhash::BM_std_umap, fam_lockhash::RP_R16, fam_lockhash::MX_SPIN, fam_lockhash::O_SWAP> )
+#else
+#define LOCKHASH_STRIPED_STD_VARIANTS
+#endif
+
+#ifndef LOCKHASH_NO_STRIPED_BOOST
+namespace fam_lockhash {
+    typedef boost::container::slist<HItem> B_b_slist;
+    typedef boost::container::list<HItem> B_b_list;
+    typedef boost::container::flat_set<HItem, HLess> B_b_flat_set;
+    typedef boost::container::stable_vector<HItem> B_b_stable_vector;
+    typedef boost::container::vector<HItem> B_b_vector;
+    typedef boost::container::set<HItem, HLess> B_b_set;
+    typedef boost::unordered_set<HItem, InnerHash, HEq> B_b_uset;
+    typedef boost::container::slist<MPair> BM_b_slist;
+    typedef boost::container::list<MPair> BM_b_list;
+    typedef boost::container::flat_map<int, MVal, std::less<int>> BM_b_flat_map;
+    typedef boost::container::map<int, MVal, std::less<int>> BM_b_map;
+    typedef boost::unordered_map<int, MVal, InnerHash, std::equal_to<int>> BM_b_umap;
+}
+#define LOCKHASH_STRIPED_BOOST_VARIANTS \
+    LH_V( "StripedSet_boost_slist_less_striping_R16", mk_striped_set<fam_lockhash::B_b_slist, fam_lockhash::RP_R16, fam_lockhash::MX_S, fam_lockhash::O_LESS> ) \
+    LH_V( "StripedSet_boost_list_cmp_refinable_T1_move", mk_striped_set<fam_lockhash::B_b_list, fam_lockhash::RP_T1, fam_lockhash::MX_R, fam_lockhash::O_CMP, fam_lockhash::O_MOVE> ) \
+    LH_V( "StripedSet_boost_flat_set_striping_T1", mk_striped_set<fam_lockhash::B_b_flat_set, fam_lockhash::RP_T1, fam_lockhash::MX_S> ) \
+    LH_V( "StripedSet_boost_stable_vector_less_refinable_T2_swap", mk_striped_set<fam_lockhash::B_b_stable_vector, fam_lockhash::RP_T2, fam_lockhash::MX_R, fam_lockhash::O_LESS, fam_lockhash::O_SWAP> ) \
+    LH_V( "StripedSet_boost_vector_cmp_striping_T0_copy", mk_striped_set<fam_lockhash::B_b_vector, fam_lockhash::RP_T0, fam_lockhash::MX_S, fam_lockhash::O_CMP, fam_lockhash::O_COPY> ) \
+    LH_V( "StripedSet_boost_set_refinable_R8", mk_striped_set<fam_lockhash::B_b_set, fam_lockhash::RP_R8, fam_lockhash::MX_R> ) \
+    LH_V( "StripedSet_boost_unordered_set_striping_T1_copy", mk_striped_set<fam_lockhash::B_b_uset, fam_lockhash::RP_T1, fam_lockhash::MX_S, fam_lockhash::O_COPY> ) \
+    LH_V( "StripedMap_boost_slist_less_refinable_T1", mk_striped_map<fam_lockhash::BM_b_slist, fam_lockhash::RP_T1, fam_lockhash::MX_R, fam_lockhash::O_LESS> ) \
+    LH_V( "StripedMap_boost_list_cmp_striping_R16_swap", mk_striped_map<fam_lockhash::BM_b_list, fam_lockhash::RP_R16, fam_lockhash::MX_S, fam_lockhash::O_CMP, fam_lockhash::O_SWAP> ) \
+    LH_V( "StripedMap_boost_flat_map_refinable_T1", mk_striped_map<fam_lockhash::BM_b_flat_map, fam_lockhash::RP_T1, fam_lockhash::MX_R> ) \
+    LH_V( "StripedMap_boost_map_striping_T0_swap", mk_striped_map<fam_lockhash::BM_b_map, fam_lockhash::RP_T0, fam_lockhash::MX_S, fam_lockhash::O_SWAP> ) \
+    LH_V( "StripedMap_boost_unordered_map_refinable_T2", mk_striped_map<fam_lockhash::BM_b_umap, fam_lockhash::RP_T2, fam_lockhash::MX_R> )
+#else
+#define LOCKHASH_STRIPED_BOOST_VARIANTS
+#endif
+
+#ifndef LOCKHASH_NO_STRIPED_INTRUSIVE
+namespace fam_lockhash {
+    namespace bi = boost::intrusive;
+    template <typename Hook>
+    struct BiNode : HItem, Hook {
+        typedef Hook hook_type;
+        int id = -1;
+        BiNode( int k, int t ) : HItem( k, t ) {}
+        // boost_unordered_set adapter: unlink() copy-constructs a search key from the node
+        BiNode( BiNode const& s ) : HItem( s ), Hook(), id( -1 ) {}
+        void* hook_ptr() { return static_cast<Hook*>( this ); }
+        static constexpr size_t hook_size = sizeof( Hook );
+    };
+    template <typename Hook>
+    struct BiMemberNode : HItem {
+        typedef Hook hook_type;
+        int id = -1;
+        Hook hMember;
+        BiMemberNode( int k, int t ) : HItem( k, t ) {}
+        BiMemberNode( BiMemberNode const& s ) : HItem( s ), id( -1 ), hMember() {}
+        void* hook_ptr() { return &hMember; }
+        static constexpr size_t hook_size = sizeof( Hook );
+    };
+    typedef BiNode<bi::list_base_hook<>> N_bi_list;
+    typedef BiMemberNode<bi::slist_member_hook<>> N_bi_slist;
+    typedef BiNode<bi::set_base_hook<>> N_bi_set;
+    typedef BiMemberNode<bi::avl_set_member_hook<>> N_bi_avl;
+    typedef BiNode<bi::bs_set_base_hook<>> N_bi_bs;
+    typedef BiNode<bi::unordered_set_base_hook<>> N_bi_uset;
+
+    typedef bi::list<N_bi_list, bi::constant_time_size<true>> BI_list;
+    typedef bi::slist<N_bi_slist, bi::member_hook<N_bi_slist, bi::slist_member_hook<>, &N_bi_slist::hMember>, bi::constant_time_size<true>> BI_slist;
+    typedef bi::set<N_bi_set, bi::compare<HLess>> BI_set;
+    typedef bi::avl_set<N_bi_avl, bi::member_hook<N_bi_avl, bi::avl_set_member_hook<>, &N_bi_avl::hMember>, bi::compare<HLess>> BI_avl_set;
+    typedef bi::sg_set<N_bi_bs, bi::compare<HLess>> BI_sg_set;
+    typedef bi::splay_set<N_bi_bs, bi::compare<HLess>> BI_splay_set;
+    typedef bi::unordered_set<N_bi_uset, bi::hash<InnerHash>, bi::equal<HEq>, bi::power_2_buckets<true>, bi::incremental<true>> BI_uset;
+    typedef co::buffer<co::v::initialized_static_buffer<cds::any_type, 8>> O_BUF8;
+}
+#define LOCKHASH_STRIPED_INTRUSIVE_VARIANTS \
+    LH_V( "IStripedSet_bi_list_less_striping_T1", mk_striped_intrusive<fam_lockhash::N_bi_list, fam_lockhash::BI_list, fam_lockhash::RP_T1, fam_lockhash::MX_S, fam_lockhash::O_LESS> ) \
+    LH_V( "IStripedSet_bi_slist_member_cmp_refinable_R16", mk_striped_intrusive<fam_lockhash::N_bi_slist, fam_lockhash::BI_slist, fam_lockhash::RP_R16, fam_lockhash::MX_R, fam_lockhash::O_CMP> ) \
+    LH_V( "IStripedSet_bi_set_striping_T2", mk_striped_intrusive<fam_lockhash::N_bi_set, fam_lockhash::BI_set, fam_lockhash::RP_T2, fam_lockhash::MX_S> ) \
+    LH_V( "IStripedSet_bi_avl_set_member_refinable_T1", mk_striped_intrusive<fam_lockhash::N_bi_avl, fam_lockhash::BI_avl_set, fam_lockhash::RP_T1, fam_lockhash::MX_R> ) \
+    LH_V( "IStripedSet_bi_sg_set_refinable_T0", mk_striped_intrusive<fam_lockhash::N_bi_bs, fam_lockhash::BI_sg_set, fam_lockhash::RP_T0, fam_lockhash::MX_R> ) \
+    LH_V( "IStripedSet_bi_splay_set_striping_R16", mk_striped_intrusive<fam_lockhash::N_bi_bs, fam_lockhash::BI_splay_set, fam_lockhash::RP_R16, fam_lockhash::MX_S> ) \
+    LH_V( "IStripedSet_bi_unordered_set_striping_T1", mk_striped_intrusive<fam_lockhash::N_bi_uset, fam_lockhash::BI_uset, fam_lockhash::RP_T1, fam_lockhash::MX_S, fam_lockhash::O_BUF8> )
+#else
+#define LOCKHASH_STRIPED_INTRUSIVE_VARIANTS
+#endif
+
+#define LOCKHASH_STRIPED_VARIANTS LOCKHASH_STRIPED_STD_VARIANTS LOCKHASH_STRIPED_BOOST_VARIANTS LOCKHASH_STRIPED_INTRUSIVE_VARIANTS
 
 #endif
